@@ -1,5 +1,7 @@
-"""(development helper) build the C07 entries of known_findings.json from literal witness
-histories, checking each against the real code and the model (the same checker the run uses)."""
+"""(development helper) build the `known` C07 entries of known_findings.json from literal witness
+histories, checking each against the real code and the model (the same checker the run uses).
+The entries proj-id-alias, proj-op-alias, result-id-alias, proj-arg-mutated are `fixed` (5ac4c3c)
+and are left as they are."""
 import json
 import os
 import sys
@@ -9,34 +11,6 @@ import wire  # noqa: E402
 import props.c07 as c07  # noqa: E402
 
 W = [
-    ('proj-id-alias',
-     'a projection re-attaches the STORED _id object to the result (collection.py:1214 '
-     'doc_copy[\'_id\'] = doc[\'_id\']): with an embedded-document _id, editing the _id of a document '
-     'returned by find/find_one/find_one_and_* with any projection that keeps _id edits the stored '
-     'document (its store key then no longer matches)',
-     [['insert_many', [{'_id': {'k': 1}, 'a': [1]}], True],
-      ['find', {}, {'a': 1}, None, 0, 0]]),
-    ('proj-op-alias',
-     '$slice / $elemMatch projections take the field out of the STORED document when the '
-     'projection has not copied it yet (collection.py:1114 doc_copy[field] = doc[field]): the '
-     'sub-documents in the returned array are the stored objects',
-     [['insert_one', {'_id': 1, 'a': [{'x': 1}, {'x': 2}]}],
-      ['find_one', {}, {'a': {'$slice': 1}}],
-      ['find_one', {}, {'a': {'$elemMatch': {'x': 2}}}]]),
-    ('result-id-alias',
-     'inserted_id / inserted_ids / upserted_id are the STORED _id object (collection.py:548 return '
-     'data[\'_id\'] after patching): with an embedded-document _id, editing the returned id edits '
-     'the stored document',
-     [['insert_one', {'_id': {'k': 1}, 'a': 1}],
-      ['update_one', {'_id': {'k': 2}}, {'$set': {'a': 2}}, True]]),
-    ('proj-arg-mutated',
-     'the projection dictionary passed by the caller is edited in place (collection.py:1185-1221: '
-     '_id and the operator fields are popped and put back): key order changes, "_id": 1 is added, '
-     'and the popped keys stay removed when the call raises ($slice on a non-array, mixed '
-     'inclusion/exclusion, unsupported operator)',
-     [['insert_one', {'_id': 1, 'a': 5}],
-      ['find', {}, {'a': {'$slice': 1}, '_id': 1}, None, 0, 0],
-      ['find', {}, {'a': 1}, None, 0, 0]]),
     ('agg-literal-alias',
      'constants of a pipeline ($literal values, array constants of $addFields/$project) are put '
      'into every output document as they are (caller -> caller aliasing, the store is not '
@@ -45,7 +19,7 @@ W = [
      [['insert_many', [{'_id': 1}, {'_id': 2}], True],
       ['aggregate', [{'$addFields': {'q': {'$literal': {'z': 1}}}}]]]),
     ('cursor-cache-alias',
-     'a Cursor caches its result list and hands out the cached objects (collection.py:1896-1929): '
+     'a Cursor caches its result list and hands out the cached objects (collection.py:1909-1942): '
      'after editing a document obtained from a cursor, rewinding / indexing the same cursor '
      'returns the edited object (caller -> caller aliasing, the store is not involved)',
      [['insert_one', {'_id': 1, 'a': [1]}],
@@ -67,5 +41,7 @@ for label, what, history in W:
                 'witness': {'history': history, 'wire_history': wh, 'consequence': label}})
 path = os.path.join(wire.VERIF, 'known_findings.json')
 data = json.load(open(path))
-data['findings'] = [x for x in data['findings'] if x['property'] != 'C07'] + out
+ids = set(e['id'] for e in out)
+data['findings'] = [x for x in data['findings']
+                    if not (x['property'] == 'C07' and x['id'] in ids)] + out
 json.dump(data, open(path, 'w'), indent=1)
